@@ -505,8 +505,7 @@ class TermRule(BaseRule):
         if isinstance(f0, ast.Name) and it.self_cls and not getattr(node, "_sa_alias_call", False):
             v0 = st.env.get(it.var(f0.id))
             parts0 = v0.sym.split(".") if (v0 is not None and v0.kind == "unk" and v0.sym) else []
-            if len(parts0) >= 2 and parts0[0] == "self" and all(p_.isidentifier() for p_ in parts0) \
-                    and (len(parts0) > 2 or it.m.find_method(it.self_cls, parts0[1]) is not None):
+            if len(parts0) >= 2 and parts0[0] == "self" and all(p_.isidentifier() for p_ in parts0):
                 # m = self.method ... m(x)  is  self.method(x) (likewise r = self._fp._safe_read ... r(n)): evaluated as that call
                 # (once: the synthesized node is marked)
                 fn0 = ast.Name(id="self", ctx=ast.Load())
